@@ -21,6 +21,20 @@ _installed = False
 ERR_FILES = ('yaml/scanner.py', 'yaml/parser.py', 'yaml/composer.py', 'yaml/constructor.py',
              'yaml/resolver.py', 'yaml/reader.py', 'yaml/error.py')
 PLACEHOLDER = '<msg>'
+# files where '%' is also used for real output: only formatting that builds an exception
+# message is replaced there (decided from the source line)
+ERR_LINE_FILES = ('yaml/emitter.py', 'yaml/serializer.py', 'yaml/representer.py')
+
+
+def _is_error_message_line(frame):
+    import linecache
+    fn = frame.f_code.co_filename
+    line = linecache.getline(fn, frame.f_lineno)
+    if 'Error(' in line:
+        return True
+    if line.strip().startswith('%'):
+        return 'Error(' in linecache.getline(fn, frame.f_lineno - 1)
+    return False
 
 
 _opcode_installed = False
@@ -59,8 +73,10 @@ def install_opcode_models(m1=True):
         opcodes_wanted = frozenset([FORMAT_VALUE, CONVERT_VALUE])
 
         def trace_op(self, frame, codeobj, codenum):
-            if not frame.f_code.co_filename.endswith(ERR_FILES):
-                return
+            fn = frame.f_code.co_filename
+            if not fn.endswith(ERR_FILES):
+                if not (fn.endswith(ERR_LINE_FILES) and _is_error_message_line(frame)):
+                    return
             flags = frame_op_arg(frame)
             idx = -2 if flags == 0x04 else -1
             obj = frame_stack_read(frame, idx)
@@ -81,6 +97,7 @@ def overrides(m1=True):
     from crosshair.tracers import NoTracing
     from crosshair.core import deep_realize
     from crosshair.libimpl.builtinslib import SymbolicInt, LazyIntSymbolicStr
+    from crosshair.libimpl.builtinslib import AnySymbolicStr as AnySymbolicStr_
 
     getframe = sys._getframe
     hexfmt = re.compile(r'^([^%]*)%0(\d)X$')
@@ -93,6 +110,12 @@ def overrides(m1=True):
                     f = f.f_back
                 if f is not None and f.f_code.co_filename.endswith(ERR_FILES):
                     return PLACEHOLDER
+                if f is not None and f.f_code.co_filename.endswith(ERR_LINE_FILES) and _is_error_message_line(f):
+                    return PLACEHOLDER
+            if type(self) is str and isinstance(other, AnySymbolicStr_) and self.count('%') == 1 and self.count('%s') == 1:
+                # 'prefix%ssuffix' % symbolic_str  -> concatenation (keeps the operand symbolic)
+                pre, post = self.split('%s')
+                return pre + other + post
             if type(self) is str and isinstance(other, SymbolicInt):
                 m = hexfmt.match(self.replace('%%', '\x00'))
                 if m:
